@@ -1,0 +1,118 @@
+//go:build verif
+
+// Assumed contracts of standard-library functions the code does not use today but that a refactoring is
+// likely to reach for (comment-only; read by /verif/plvc).  Without them a new call of, say,
+// strings.IndexByte has an unconstrained result and memory reachable from its arguments is havocked, so a
+// harmless `if i := strings.IndexByte(s, '.'); i >= 0 { s = s[:i] }` would fail its slice-bounds obligation.
+// Every block is an assumption about the library (listed in the evidence of a check that uses it).
+
+package engine
+
+//@ extern strings.Index
+//@ pure
+//@ ensures -1 <= result && (result >= 0 ==> result + len(substr) <= len(s))
+//@ extern strings.IndexByte
+//@ pure
+//@ ensures -1 <= result && result < len(s) && (result >= 0 ==> s[result] == c)
+//@ extern strings.IndexRune
+//@ pure
+//@ ensures -1 <= result && result < len(s)
+//@ extern strings.IndexAny
+//@ pure
+//@ ensures -1 <= result && result < len(s)
+//@ extern strings.LastIndex
+//@ pure
+//@ ensures -1 <= result && (result >= 0 ==> result + len(substr) <= len(s))
+//@ extern strings.LastIndexByte
+//@ pure
+//@ ensures -1 <= result && result < len(s) && (result >= 0 ==> s[result] == c)
+//@ extern bytes.IndexByte
+//@ pure
+//@ ensures -1 <= result && result < len(b)
+//@ extern bytes.Index
+//@ pure
+//@ ensures -1 <= result && (result >= 0 ==> result + len(sep) <= len(s))
+//@ extern strings.HasSuffix
+//@ pure
+//@ ensures result ==> len(suffix) <= len(s)
+//@ extern strings.TrimPrefix
+//@ pure
+//@ ensures len(result) <= len(s)
+//@ extern strings.TrimSuffix
+//@ pure
+//@ ensures len(result) <= len(s)
+//@ extern strings.TrimLeft
+//@ pure
+//@ ensures len(result) <= len(s)
+//@ extern strings.TrimRight
+//@ pure
+//@ ensures len(result) <= len(s)
+//@ extern strings.Cut
+//@ pure
+//@ ensures len(result0) <= len(s) && len(result1) <= len(s) && (!result2 ==> result0 == s && len(result1) == 0)
+//@ extern strings.EqualFold
+//@ pure
+//@ extern strings.Count
+//@ pure
+//@ ensures result >= 0
+//@ extern strings.Repeat
+//@ pure
+//@ extern strings.Replace
+//@ pure
+//@ extern strings.ReplaceAll
+//@ pure
+//@ extern strings.Fields
+//@ modifies nothing
+//@ extern strings.Split
+//@ modifies nothing
+//@ extern strings.SplitN
+//@ modifies nothing
+//@ extern strings.Title
+//@ pure
+//@ extern strconv.Itoa
+//@ pure
+//@ extern strconv.Atoi
+//@ pure
+//@ extern strconv.FormatInt
+//@ pure
+//@ extern strconv.FormatFloat
+//@ pure
+//@ extern strconv.Quote
+//@ pure
+//@ extern strconv.ParseBool
+//@ pure
+//@ extern fmt.Sprint
+//@ pure
+//@ extern fmt.Sprintln
+//@ pure
+//@ extern unicode/utf8.RuneCountInString
+//@ pure
+//@ ensures 0 <= result && result <= len(s)
+//@ extern unicode/utf8.ValidString
+//@ pure
+//@ extern unicode/utf8.ValidRune
+//@ pure
+//@ extern unicode.IsSpace
+//@ pure
+//@ extern unicode.IsUpper
+//@ pure
+//@ extern unicode.IsLower
+//@ pure
+//@ extern unicode.ToLower
+//@ pure
+//@ extern unicode.ToUpper
+//@ pure
+//@ extern math.Abs
+//@ pure
+//@ extern math.Floor
+//@ pure
+//@ extern math.IsNaN
+//@ pure
+//@ extern math.IsInf
+//@ pure
+//@ extern time.Since
+//@ pure
+//@ extern errors.Is
+//@ pure
+//@ extern errors.As
+//@ modifies nothing
